@@ -496,7 +496,10 @@ def thorough(prop, units, results):
     return extra
 
 
-def dev_unit(name, probe=False, seed=None, rlimit=None):
+def dev_unit(name, probe=False, seed=None, rlimit=None, only_fn=None):
+    if only_fn:
+        mod = load_unit(name)
+        mod.VERUS_ARGS = list(getattr(mod, "VERUS_ARGS", [])) + ["--verify-root", "--verify-function", only_fn]
     ur = run_unit(name, probe=probe, seed=seed, rlimit=rlimit)
     print(f"unit {name}: status={ur.status} {ur.reason}")
     print(f"  file {ur.path}  verified={ur.verified} errors={ur.errors} smt={ur.smt_ms}ms total={ur.total_ms}ms wall={ur.wall:.1f}s")
@@ -535,7 +538,11 @@ def main():
                 seed = int(x[7:])
             if x.startswith("--rlimit="):
                 rl = float(x[9:])
-        return dev_unit(a[1], probe="--probe" in a, seed=seed, rlimit=rl)
+        only = None
+        for x in a[2:]:
+            if x.startswith("--fn="):
+                only = x[5:]
+        return dev_unit(a[1], probe="--probe" in a, seed=seed, rlimit=rl, only_fn=only)
     if a[0] == "canaries":
         mod = load_unit(a[1])
         base = run_unit(a[1])
